@@ -200,7 +200,11 @@ cfg_not_miri! {
 
                 pub(crate) fn new_with(options: &Builder) -> Self {
                     Self {
-                        inner: CQueue::new(options.cqueue_num_buckets, options.cqueue_bucket_timespan),
+                        inner: CQueue::new_at(
+                            options.cqueue_num_buckets,
+                            options.cqueue_bucket_timespan,
+                            *options.start_time,
+                        ),
                     }
                 }
 
